@@ -43,6 +43,8 @@ enum Stratum {
     SauceTails(Vec<(Vec<u8>, String)>),
     Tokens { ext: &'static str, toks: Vec<Vec<u8>>, depth: u32 },
     Names(Vec<String>),
+    /// header fields that satisfy a loader's own length equation with extreme operands (two or three cooperating fields)
+    Equations(Vec<(Vec<u8>, String)>),
 }
 
 struct Load {
@@ -158,6 +160,48 @@ fn sauce_tails() -> Vec<(Vec<u8>, String)> {
     out
 }
 
+/// PSF2: the loader accepts a file when headersize + length * charsize equals the file length. Every (length, charsize) pair of
+/// extremes is combined with each headersize that solves the equation under signed 32 bit, unsigned 32 bit, wrapping 32 bit and
+/// 64 bit readings of the operands, for several payload lengths and height / width extremes.
+fn psf2_equation_cases() -> Vec<(Vec<u8>, String)> {
+    let mut out = Vec::new();
+    let vals: [u32; 14] = [0, 1, 2, 16, 32, 255, 256, 512, 0x7FFF_FFFF, 0x8000_0000, 0x8000_0001, 0xFFFF_FFF0, 0xFFFF_FFFE, 0xFFFF_FFFF];
+    for payload in [0usize, 16, 256 * 16] {
+        let file_len = (32 + payload) as i128;
+        for length in vals {
+            for charsize in vals {
+                let mut heads: Vec<i128> = vec![
+                    file_len - (length as i32 as i128) * (charsize as i32 as i128),
+                    file_len - (length as i128) * (charsize as i128),
+                    file_len - (length.wrapping_mul(charsize) as i128),
+                    file_len - ((length as i32).wrapping_mul(charsize as i32) as i128),
+                ];
+                heads.sort_unstable();
+                heads.dedup();
+                for h in heads {
+                    if !(0..=u32::MAX as i128).contains(&h) {
+                        continue;
+                    }
+                    for (height, width) in [(16u32, 8u32), (0, 0), (0xFFFF_FFFF, 0xFFFF_FFFF), (charsize, 8)] {
+                        let mut b = Vec::with_capacity(32 + payload);
+                        b.extend(0x864a_b572u32.to_le_bytes());
+                        b.extend(0u32.to_le_bytes());
+                        b.extend((h as u32).to_le_bytes());
+                        b.extend(0u32.to_le_bytes());
+                        b.extend(length.to_le_bytes());
+                        b.extend(charsize.to_le_bytes());
+                        b.extend(height.to_le_bytes());
+                        b.extend(width.to_le_bytes());
+                        b.extend((0..payload).map(|i| (i * 7) as u8));
+                        out.push((b, format!("PSF2 header: headersize {h} length {length:#x} charsize {charsize:#x} height {height:#x} width {width:#x}, {payload} payload bytes")));
+                    }
+                }
+            }
+        }
+    }
+    out
+}
+
 fn build(prop: &str, tier: &str) -> Load {
     let thorough = tier == "thorough";
     let c03 = prop == "C03";
@@ -185,6 +229,7 @@ fn build(prop: &str, tier: &str) -> Load {
             pairs.extend(nat.into_iter().take(if thorough { 300 } else { 64 }).map(|t| t.bytes));
             strata.push(Stratum::Tokens { ext, toks: pairs, depth: 2 });
         }
+        strata.push(Stratum::Equations(psf2_equation_cases()));
         strata.push(Stratum::Names(vec!["noext".into(), "x.".into(), ".ans".into(), "dir.d/name".into(), "".into(), "x.ANS".into(), "x.tar.xb".into(), "\u{fc}.\u{fc}".into(), "x.an0".into(), "x.an10".into()]));
     }
     let mut out = Vec::new();
@@ -197,6 +242,7 @@ fn build(prop: &str, tier: &str) -> Load {
             Stratum::SauceTails(v) => v.len() as u64,
             Stratum::Tokens { toks, depth, .. } => (toks.len() as u64).pow(*depth),
             Stratum::Names(v) => v.len() as u64,
+            Stratum::Equations(v) => v.len() as u64,
         };
         out.push((s, n, total));
         total += n;
@@ -279,6 +325,10 @@ impl Load {
                     }
                 }
                 v
+            }
+            Stratum::Equations(v) => {
+                let (bytes, d) = &v[i as usize];
+                vec![Case { target: Target::Font, bytes: bytes.clone(), key: "font:length-equation".into(), desc: d.clone() }]
             }
             Stratum::SauceTails(v) => {
                 let (bytes, d) = &v[i as usize];
@@ -421,6 +471,7 @@ impl Engine for Load {
                 Stratum::SauceTails(_) => "SAUCE tail product (<= 2 deviations) under 6 extensions + extract",
                 Stratum::Tokens { .. } => "control token streams (depth 1 and 2) as files of the text formats",
                 Stratum::Names(_) => "file names without / with odd extensions",
+                Stratum::Equations(_) => "PSF2 headers whose fields solve the loader's length equation with extreme operands",
             };
             let e = m.entry(k).or_insert((0, 0));
             e.0 += 1;
